@@ -553,6 +553,9 @@ impl Printable for SliceDesc {
 			.nth(1);
 		if self.step().is_some() {
 			p!(out, str(":") co(second_colon) {self.step().map(|e|e.expr())} ct(n(&self.step())));
+		} else if self.end().is_some() {
+			// Without its `:` the comment trails the end of the slice
+			p!(out, ct(second_colon));
 		} else {
 			p!(out, co(second_colon));
 		}
